@@ -13,7 +13,7 @@ for d in /verif/seeded/$GLOB/; do
   if ! git -C "$WT" apply "$patch" 2>/dev/null; then
     echo "$id: PATCH-DOES-NOT-APPLY-TO-MAIN (made against an older HEAD; port it to seeded/$id/patch_main.diff)"; continue
   fi
-  out=$(WGSIM_REPO_SRC="$WT/src" timeout 7200 /verif/bin/check "$prop" --no-evidence --no-selfcheck --replay-dir seeded "$@" 2>&1)
+  out=$(WGSIM_REPO_SRC="$WT/src" timeout 7200 /verif/bin/check "$prop" --no-evidence --no-selfcheck --no-minimise --replay-dir seeded "$@" 2>&1)
   code=$?
   key=$(echo "$out" | grep -m1 "^violation key=" | cut -d' ' -f2)
   echo "$id: exit=$code ${key:-no-violation} $(echo "$out" | grep -o 'wall_s=[0-9.]*')"
